@@ -257,10 +257,12 @@ type vf19World struct {
 	log             []string // human readable history, printed with a violation
 }
 
+// The shared cache has exactly one slot per server name: nothing is ever evicted for lack of room, so a lost entry is a
+// defect of the cache bookkeeping (e.g. after the "session expired" deletions of loadSession), not of the model.
 var vf19Names = []string{"a.c19.test", "b.c19.test", "c.c19.test"}
 
 func vf19NewWorld(st *vfStats) *vf19World {
-	w := &vf19World{st: st, now: vfNow(), cache: NewLRUClientSessionCache(32), servers: map[string]*vf19Server{}, last: map[string]*vf19Last{}}
+	w := &vf19World{st: st, now: vfNow(), cache: NewLRUClientSessionCache(len(vf19Names)), servers: map[string]*vf19Server{}, last: map[string]*vf19Last{}}
 	for _, n := range vf19Names {
 		s := &vf19Server{name: n, issued: map[string]vf19Ticket{}}
 		w.servers[n] = s
@@ -969,6 +971,25 @@ func TestVerifC19Directed(t *testing.T) {
 		w.connect(t, vf19Conn{Ident: b, Name: vf19Names[2], SrvMax: VersionTLS13, OmitPSK: true})
 		w.connect(t, vf19Conn{Ident: a, Name: vf19Names[2], SrvMax: VersionTLS12, OmitPSK: true})
 		w.finish()
+	}
+	// (h) expiry, fresh session, then the other names: the fresh session of the first name must survive
+	for _, p := range []vfParrot{{"HelloChrome_100_PSK", HelloChrome_100_PSK}, {"HelloGolang", HelloGolang}, chrome100} {
+		for _, sv := range []uint16{VersionTLS13, VersionTLS12} {
+			w := vf19NewWorld(st)
+			id := mk(p, false)
+			c := func(name string) { w.connect(t, vf19Conn{Ident: id, Name: name, SrvMax: sv, OmitPSK: true}) }
+			c(vf19Names[0])
+			c(vf19Names[0])
+			w.advance(8 * 24 * time.Hour) // beyond the ticket lifetime: the cached session is dropped on the next use
+			c(vf19Names[0])
+			c(vf19Names[0])
+			c(vf19Names[1])
+			c(vf19Names[2])
+			c(vf19Names[1])
+			c(vf19Names[0])
+			c(vf19Names[2])
+			w.finish()
+		}
 	}
 	// (g) HelloGolang (session loaded inside the handshake, the only identity for which PSK + HelloRetryRequest is implemented)
 	{
